@@ -869,6 +869,25 @@ func baseOpts(n *NodeSpec, form string) []flyt.NodeOption {
 	return opts
 }
 
+// ctorOpts: the opt-form settings as constructor arguments of NewNode / NewBatchNode.
+func ctorOpts(n *NodeSpec) []any {
+	var out []any
+	for _, s := range n.Settings {
+		if s.Form != "opt" {
+			continue
+		}
+		one := baseOpts(&NodeSpec{Settings: []Setting{s}}, "opt")
+		for _, o := range one {
+			if s.Plain {
+				out = append(out, (func(*flyt.BaseNode))(o))
+			} else {
+				out = append(out, o)
+			}
+		}
+	}
+	return out
+}
+
 func (h *harness) execFuncR(n *NodeSpec) func(context.Context, flyt.Result) (flyt.Result, error) {
 	return func(ctx context.Context, p flyt.Result) (flyt.Result, error) {
 		h.noteCtx(n, ctx)
@@ -954,10 +973,7 @@ func (h *harness) decoyOpts(n *NodeSpec) []any {
 
 // buildFunc builds a function-style node through options, builder methods or both.
 func (h *harness) buildFunc(n *NodeSpec) flyt.Node {
-	var opts []any
-	for _, o := range baseOpts(n, "opt") {
-		opts = append(opts, o)
-	}
+	opts := ctorOpts(n)
 	prepR := func(ctx context.Context, s *flyt.SharedStore) (flyt.Result, error) {
 		h.noteCtx(n, ctx)
 		v, err := h.prep(n, s)
@@ -1113,10 +1129,7 @@ func (h *harness) buildBatch(n *NodeSpec) flyt.Node {
 		}
 		return bb
 	}
-	var opts []any
-	for _, o := range baseOpts(n, "opt") {
-		opts = append(opts, o)
-	}
+	opts := ctorOpts(n)
 	batchDecoy := &NodeSpec{ID: n.ID, Styles: n.Styles}
 	if hasDecoy(n, 'e') {
 		batchDecoy.Decoy += "e"
@@ -1243,7 +1256,16 @@ func (h *harness) build() {
 			if n.Start < 0 || n.Start >= i {
 				panic(fmt.Sprintf("flow %d: start %d must be an earlier node", i, n.Start))
 			}
-			h.nodes[i] = flyt.NewFlow(h.nodes[n.Start])
+			f := flyt.NewFlow(h.nodes[n.Start])
+			for _, st := range n.Settings { // a flow's own retry settings, through its exported embedded BaseNode
+				switch st.Param {
+				case "retries":
+					flyt.WithMaxRetries(st.Val)(f.BaseNode)
+				case "wait":
+					flyt.WithWait(time.Duration(st.Val) * time.Millisecond)(f.BaseNode)
+				}
+			}
+			h.nodes[i] = f
 		default:
 			panic("bad node kind " + n.Kind)
 		}
@@ -1358,18 +1380,70 @@ func (h *harness) emitCfg(phase int) {
 	}
 }
 
+// errShutdown is the custom cause of the "cause" context implementation.
+var errShutdown = errors.New("shutdown requested")
+
+// linkedCtx is a hand-written Context: its own Done channel and Err on top of
+// a standard cancellable context that stays live (Value, and with it
+// context.Cause, still see only that one).
+type linkedCtx struct {
+	context.Context
+	mu    sync.Mutex
+	done  chan struct{}
+	err   error
+	dl    time.Time
+	hasDl bool
+}
+
+func (c *linkedCtx) Done() <-chan struct{} { return c.done }
+func (c *linkedCtx) Err() error {
+	c.mu.Lock()
+	defer c.mu.Unlock()
+	return c.err
+}
+func (c *linkedCtx) Deadline() (time.Time, bool) {
+	if c.hasDl {
+		return c.dl, true
+	}
+	return c.Context.Deadline()
+}
+func (c *linkedCtx) end(err error) {
+	c.mu.Lock()
+	if c.err == nil {
+		c.err = err
+		close(c.done)
+	}
+	c.mu.Unlock()
+}
+
 // runMain is the body of the main simulated task.
 func (h *harness) runMain() {
 	sc := h.sc
 	h.store = flyt.NewSharedStore()
 	base := context.Background()
-	switch sc.Ctx.Kind {
-	case "", "cancel", "precancel":
+	deadline := time.Now().Add(time.Duration(sc.Ctx.DeadlineUs) * time.Microsecond)
+	switch sc.Ctx.Kind + "/" + sc.Ctx.Impl {
+	case "/", "cancel/", "precancel/":
 		h.ctx, h.cancel = context.WithCancel(base)
-	case "deadline", "predeadline":
-		h.ctx, h.cancel = context.WithDeadline(base, time.Now().Add(time.Duration(sc.Ctx.DeadlineUs)*time.Microsecond))
+	case "deadline/", "predeadline/":
+		h.ctx, h.cancel = context.WithDeadline(base, deadline)
+	case "/cause", "cancel/cause", "precancel/cause":
+		ctx, cancel := context.WithCancelCause(base)
+		h.ctx, h.cancel = ctx, func() { cancel(errShutdown) }
+	case "deadline/cause", "predeadline/cause":
+		h.ctx, h.cancel = context.WithDeadlineCause(base, deadline, errShutdown)
+	case "/custom", "cancel/custom", "precancel/custom", "deadline/custom", "predeadline/custom":
+		live, stop := context.WithCancel(base)
+		lc := &linkedCtx{Context: live, done: make(chan struct{})}
+		h.ctx, h.cancel = lc, func() { lc.end(context.Canceled) }
+		if strings.HasSuffix(sc.Ctx.Kind, "deadline") {
+			lc.dl, lc.hasDl = deadline, true
+			tm := time.AfterFunc(time.Until(deadline), func() { lc.end(context.DeadlineExceeded) })
+			defer tm.Stop()
+		}
+		defer stop()
 	default:
-		panic("bad ctx kind " + sc.Ctx.Kind)
+		panic("bad ctx kind " + sc.Ctx.Kind + "/" + sc.Ctx.Impl)
 	}
 	defer h.cancel()
 	h.build()
